@@ -81,7 +81,7 @@ class ExecutionPlan:
         remaining = list(self.execution_plan)
         progress = True
         while remaining and progress:
-            ready = [step for step in remaining if set(step.required_uuids) - step.get_uuids() <= finished]
+            ready = [step for step in remaining if set(step.required_uuids) <= finished]
             progress = bool(ready)
             for step in ready:
                 finished.update(step.get_uuids())
